@@ -385,7 +385,7 @@ def solve_and_get_model(
         s.add(*z3_csp)
         if s.check() == z3.sat:
             m = s.model()
-            return {d.name(): cast(Any, m[d]).as_long() for d in m.decls()}
+            return _int_assignments(m)
         return None
 
     # Otherwise build an optimiser.
@@ -400,9 +400,18 @@ def solve_and_get_model(
     # Enumerate first Pareto-optimal model (suffices since *priority='pareto'*).
     if opt.check() == z3.sat:
         m = opt.model()
-        return {d.name(): cast(Any, m[d]).as_long() for d in m.decls()}
+        return _int_assignments(m)
 
     return None
+
+
+def _int_assignments(m: Any) -> dict[str, int]:
+    """Integer-valued declarations of a z3 model (the model may also hold Boolean helpers)."""
+    return {
+        d.name(): cast(Any, m[d]).as_long()
+        for d in m.decls()
+        if z3.is_int_value(m[d])
+    }
 
 
 def solve_pareto_front(
@@ -449,7 +458,7 @@ def solve_pareto_front(
     results: list[dict[str, int]] = []
     while opt.check() == z3.sat:
         m = opt.model()
-        results.append({d.name(): cast(Any, m[d]).as_long() for d in m.decls()})
+        results.append(_int_assignments(m))
         if max_solutions is not None and len(results) >= max_solutions:
             break
 
